@@ -190,19 +190,27 @@ theorem foldl_set_nodup {α V : Type} (f : α → Bytes × V) (step : AMap V →
         exact hnd.1 (by simp only [List.mem_map]; exact ⟨b, hb, heq.symm⟩)
 
 structure KeyFacts (k : Bytes) : Prop extends NameFacts k where
-  noEQ : ∀ b ∈ k, b ≠ cEQ
+  noEQ : Arc.Generated.C01.kvCutEscapeAware = false → ∀ b ∈ k, b ≠ cEQ
 
 theorem keyFacts (k : Bytes) (h : keyOK k = true) : KeyFacts k := by
-  simp only [keyOK, Bool.and_eq_true, Bool.not_eq_true'] at h
-  exact { toNameFacts := nameFacts k h.1, noEQ := not_contains k cEQ h.2 }
+  simp only [keyOK, Bool.and_eq_true, Bool.or_eq_true, Bool.not_eq_true'] at h
+  refine { toNameFacts := nameFacts k h.1, noEQ := fun hf => ?_ }
+  rcases h.2 with h2 | h2
+  · rw [hf] at h2; exact absurd h2 (by simp)
+  · exact not_contains k cEQ h2
 
+/-- whichever way the current source locates the separator, it finds the one `render` wrote -/
 theorem cut_kv (k rest : Bytes) (hk : KeyFacts k) :
-    cutAt cEQ (escName tagSet k ++ cEQ :: rest) = some (escName tagSet k, rest) := by
-  apply cutAt_append
-  intro b hb
-  rcases mem_escName tagSet k b hb with h | h
-  · subst h; decide
-  · exact hk.noEQ b h
+    cutKV (escName tagSet k ++ cEQ :: rest) = some (escName tagSet k, rest) := by
+  unfold cutKV
+  split
+  · exact cutAtEsc_escName tagSet cEQ k rest (by decide) (by decide) hk.noBS
+  · rename_i hf
+    apply cutAt_append
+    intro b hb
+    rcases mem_escName tagSet k b hb with h | h
+    · subst h; decide
+    · exact hk.noEQ (by simpa using hf) b h
 
 theorem unescape_name (set : UInt8 → Bool) (hset : ∀ b, set b = true → isEsc b = true) (s : Bytes)
     (hs : NameFacts s) : unescape (escName set s) = s :=
